@@ -72,6 +72,7 @@ def run(P, rep, tier):
         'line before decoding and trims nothing afterwards; R5 metadata codec pairing json.dumps / json.loads with format '
         'json; R6 one record per header; R7 encoding-scope agreement of both sides with one oracle (K1, shared with C04); '
         'R8 line endings detected from the first line on both sides (same function).')
+    P.func('pydiffx.utils.text', 'split_lines')     # anchor of the line-splitting role (analysed by C16); vanished -> exit 2
     rep.undecided = 'everything value-level: content resembling headers, NUL bytes, exotic codecs\' byte patterns, equality of decoded text'
     rep.trusted_base += ['summaries of utils/text.py', 'sink/def-use model of the interpreter']
     R, res = rr.analyse(P, tier)
